@@ -21,6 +21,43 @@ var readOnlyExternal = map[string]bool{
 	"fmt.Sprintf": true, "strings.TrimLeft": true, "strings.TrimPrefix": true, "strings.Trim": true,
 }
 
+// readOnlyExt: a function outside the module that only reads the slices and
+// strings it is given. Besides the reviewed table above: every package-level
+// function of strings, bytes, strconv, unicode, unicode/utf8 and fmt, and the
+// Write… methods of strings.Builder and bytes.Buffer (they copy into their own
+// buffer), except those that by their documented contract write into an
+// argument or keep it as their own storage (Append…, Encode…, Put…, Read…,
+// Copy…, Fill…, sorting, bytes.NewBuffer).
+func readOnlyExt(full string, callee *ssa.Function) bool {
+	if readOnlyExternal[full] {
+		return true
+	}
+	if callee == nil || callee.Pkg == nil {
+		return false
+	}
+	name := callee.Name()
+	for _, pre := range []string{"Append", "Encode", "Put", "Read", "Copy", "Fill", "Sort", "Stable", "Swap", "Reverse", "NewBuffer", "Grow", "Truncate", "Reset", "Unread"} {
+		if strings.HasPrefix(name, pre) {
+			return false
+		}
+	}
+	path := callee.Pkg.Pkg.Path()
+	recv := callee.Signature.Recv()
+	if recv == nil {
+		switch path {
+		case "strings", "bytes", "strconv", "unicode", "unicode/utf8", "fmt", "errors":
+			return true
+		}
+		return false
+	}
+	rt := strings.TrimPrefix(types.TypeString(recv.Type(), nil), "*")
+	switch rt {
+	case "strings.Builder", "bytes.Buffer":
+		return strings.HasPrefix(name, "Write") || name == "Len" || name == "String" || name == "Bytes" || name == "Cap"
+	}
+	return false
+}
+
 var readOnlyInvoke = map[string]bool{
 	"io.Writer.Write":            true, // io.Writer's contract: Write must not modify the slice data
 	"ast.Vertex.GetPosition":     true,
@@ -136,7 +173,7 @@ func TreeReadonly(w *World, observers ...string) *report.RuleResult {
 								full = strings.TrimPrefix(types.TypeString(recv.Type(), nil), "*") + "." + callee.Name()
 							}
 						}
-						if !readOnlyExternal[full] {
+						if !readOnlyExt(full, callee) {
 							flag("extcall", full, in, "passes a tree-derived value to "+full+", which is not in the reviewed read-only set")
 						}
 					}
